@@ -47,7 +47,7 @@ CHECKS = {
         technique="Coq proof (constructor postcondition + payload byte-ness by walk invariant; textbook Fletcher sums) + finite table obligation + correspondence over all routes",
         text="C04_wellformed: for all three constructor routes (hence the config helpers), any message returned "
              "serializes to a well-formed frame, with the checksum stated as the closed-form 8-bit Fletcher sums. "
-             "C04_accepted_partial: accepted by parse in the same mode (no-payload/raw-payload routes proved; keyword "
+             "C04_accepted_partial / C04_accepted_kw_partial: accepted by parse in the same mode (no-payload/raw-payload routes proved; keyword route proved for the definitions the build->parse simulation covers; remaining keyword "
              "route by correspondence). C04_addressing: names/ints/bytes agree for every message id with a "
              "definition (finite, whole table). Known finding: wrong-length C values (see C15).",
         note=MSG_NOTE, ref="DESIGN.md §6 C04"),
@@ -103,7 +103,8 @@ CHECKS = {
         technique="Coq proof (list induction over the framing trace: interp under mask F = filter of interp under mask 7) + correspondence over all 8 masks",
         text="C11_filter for every byte string and mask: items(F) = filter (protocol raw in F) items(7); C11_parsing_off: "
              "with parsing=False the raw sequence is unchanged (over streams whose framed candidates are accepted) and "
-             "every parsed value is None.",
+             "every parsed value is None. C11_filter_any_stream / C11_parsing_off_any_stream: the same for every stream "
+             "implementation whose read(n) returns at most n bytes (any state type, any fuel; short reads allowed).",
         note=READER_NOTE, ref="DESIGN.md §6 C11"),
     "C13": dict(
         technique="Coq proof (immutability flag set on every constructor path) + purity by construction; runtime part by fd-level capture, table digests, histories and threads",
@@ -139,13 +140,13 @@ CHECKS = {
         note=MSG_NOTE, ref="DESIGN.md §6 C17"),
     "C18": dict(
         technique="Coq proof (integer codec round trip for every width; X/C/nomval; R8 bit round trip; Fletcher closed form; get_bits; att2idx/att2name invert the walk's suffixing by induction over decimal printing) + exhaustive/boundary correspondence incl. the float engine and long inputs",
-        text="C18_int_rt / C18_int_refuse / C18_bytes_rt for E,I,L,U of every width; C18_x_rt/_refuse, C18_c_rt, C18_nomval; C18_r8_bits_rt (all 2^64 patterns but non-canonical NaNs); C18_fletcher_spec, C18_isvalid; C18_get_bits; C18_att2name / C18_att2idx (every base name without '_', every index path, any depth and magnitude). Partial: R4 rounding and val2sphp are modelled bit-exactly and tied by correspondence only; utc2itow/itow2utc (datetime arithmetic) are checked on the implementation only (dense sample of the week); protocol() is proved equal to the reader's dispatch in C07/C11.",
-        note=MSG_NOTE, ref="DESIGN.md §6 C18"),
+        text="C18_int_rt / C18_int_refuse / C18_bytes_rt for E,I,L,U of every width; C18_x_rt/_refuse, C18_c_rt, C18_nomval; C18_r8_bits_rt (all 2^64 patterns but non-canonical NaNs); C18_fletcher_spec, C18_isvalid; C18_get_bits; C18_att2name / C18_att2idx (every base name without '_', every index path, any depth and magnitude); C18_r4_bits_rt / C18_r4_codec_rt (single precision: unpack then pack is the identity on every non-NaN 32-bit pattern; Flocq, four standard-library real-number axioms). Partial: val2sphp is modelled bit-exactly and tied by correspondence only; utc2itow/itow2utc (datetime arithmetic) are checked on the implementation only (dense sample of the week); protocol() is proved equal to the reader's dispatch in C07/C11.",
+        note=MSG_NOTE + AXIOM_NOTE.replace("scaled-field theorems", "R4 theorems"), ref="DESIGN.md §6 C18"),
     "C12": dict(
         technique="Coq proof (list induction over the framing trace for the three error policies) + correspondence incl. handler calls and raised exception",
         text="C12_ignore_log, C12_handler (handler called exactly once per rejection, in order, with that exception, "
              "never otherwise), C12_raise (items up to the first rejection, then exactly that exception) for every byte "
-             "string, mask, parsing flag and parser behaviour.",
+             "string, mask, parsing flag and parser behaviour; C12_*_any_stream: the same three statements for EVERY stream implementation (any state type, any read/readline functions - short reads while data follows, sockets, serial ports - any fuel).",
         note=READER_NOTE, ref="DESIGN.md §6 C12"),
 }
 
